@@ -105,6 +105,14 @@ def N(names, code):
     return names.get(code, code) if names else code
 
 
+def NN(c, names, code):
+    """Name of a code inside country spec c: the country's own 'names' map first, then the global map."""
+    own = c.get('names') or {}
+    if code in own:
+        return own[code]
+    return N(names, code)
+
+
 def gov_code(c):
     return 'TRE' if c['gov'] == 'TRECB' else 'GOV'
 
@@ -122,7 +130,7 @@ def build(spec, order=None, names=None, maxtime=None):
         ExternalSector(m)
     # countries first (all exist before sectors so that multi-output firms can name foreign markets)
     for c in spec['countries']:
-        cc = N(names, c['code'])
+        cc = NN(c, names, c['code'])
         if c['region']:
             b.countries[c['code']] = Region(m, cc, currency=c['cur'])
         else:
@@ -154,61 +162,61 @@ def _declare(b, c, co, did, names, specs_by_code, imported, deferred):
     S = b.sectors
     if did == 'GOV':
         if c['gov'] == 'GOLD':
-            S[(code, 'GOV')] = GoldStandardGovernment(co, N(names, 'GOV'), initial_gold_stock=10.)
+            S[(code, 'GOV')] = GoldStandardGovernment(co, NN(c, names, 'GOV'), initial_gold_stock=10.)
         else:
-            S[(code, 'GOV')] = ConsolidatedGovernment(co, N(names, 'GOV'))
+            S[(code, 'GOV')] = ConsolidatedGovernment(co, NN(c, names, 'GOV'))
     elif did == 'TRE':
-        S[(code, 'TRE')] = Treasury(co, N(names, 'TRE'))
+        S[(code, 'TRE')] = Treasury(co, NN(c, names, 'TRE'))
     elif did == 'CB':
-        S[(code, 'CB')] = CentralBank(co, N(names, 'CB'), treasury=S[(code, 'TRE')])
+        S[(code, 'CB')] = CentralBank(co, NN(c, names, 'CB'), treasury=S[(code, 'TRE')])
     elif did == 'HH':
         cls = Household if c['hh'] == 'HH' else HouseholdWithExpectations
-        S[(code, 'HH')] = cls(co, N(names, 'HH'), alpha_income=c['a1'], alpha_fin=c['a2'],
-                              consumption_good_name=N(names, 'GOOD'), labour_name=N(names, 'LAB'))
+        S[(code, 'HH')] = cls(co, NN(c, names, 'HH'), alpha_income=c['a1'], alpha_fin=c['a2'],
+                              consumption_good_name=NN(c, names, 'GOOD'), labour_name=NN(c, names, 'LAB'))
         if c.get('hhtax') is not None:
             S[(code, 'HH')].AddVariable('TaxRate', 'Sector-level tax rate', '%0.4f' % c['hhtax'])
     elif did == 'CAP':
-        S[(code, 'CAP')] = Capitalists(co, N(names, 'CAP'), alpha_income=c['a1'], alpha_fin=c['a2'],
-                                       consumption_good_name=N(names, 'GOOD'))
+        S[(code, 'CAP')] = Capitalists(co, NN(c, names, 'CAP'), alpha_income=c['a1'], alpha_fin=c['a2'],
+                                       consumption_good_name=NN(c, names, 'GOOD'))
     elif did == 'LAB':
-        S[(code, 'LAB')] = Market(co, N(names, 'LAB'))
+        S[(code, 'LAB')] = Market(co, NN(c, names, 'LAB'))
     elif did == 'GOOD':
-        S[(code, 'GOOD')] = Market(co, N(names, 'GOOD'))
+        S[(code, 'GOOD')] = Market(co, NN(c, names, 'GOOD'))
     elif did == 'BUS':
         if c['bus'] == 'FM':
-            S[(code, 'BUS')] = FixedMarginBusiness(co, N(names, 'BUS'), profit_margin=c['margin'],
-                                                   labour_input_name=N(names, 'LAB'), output_name=N(names, 'GOOD'))
+            S[(code, 'BUS')] = FixedMarginBusiness(co, NN(c, names, 'BUS'), profit_margin=c['margin'],
+                                                   labour_input_name=NN(c, names, 'LAB'), output_name=NN(c, names, 'GOOD'))
         else:
             foreign = [mk for (sup, mk) in sorted(imported) if sup == code]
 
             def make():
                 mlist = [S[(code, 'GOOD')]] + [S[(mk, 'GOOD')] for mk in foreign]
                 S[(code, 'BUS')] = FixedMarginBusinessMultiOutput(
-                    co, N(names, 'BUS'), profit_margin=c['margin'], labour_input_name=N(names, 'LAB'),
+                    co, NN(c, names, 'BUS'), profit_margin=c['margin'], labour_input_name=NN(c, names, 'LAB'),
                     market_list=mlist)
             if foreign:
                 deferred.append(make)
             else:
                 make()
     elif did == 'TF':
-        S[(code, 'TF')] = TaxFlow(co, N(names, 'TF'), taxrate=c['tax'], taxes_paid_to=N(names, _zone_gov_code(b, c)))
+        S[(code, 'TF')] = TaxFlow(co, NN(c, names, 'TF'), taxrate=c['tax'], taxes_paid_to=_zone_gov_name(b, c, names))
     elif did == 'MON':
         issuer = 'CB' if c['gov'] == 'TRECB' else 'GOV'
-        S[(code, 'MON')] = MoneyMarket(co, code=c.get('moncode', 'MON'), issuer_short_code=N(names, issuer))
+        S[(code, 'MON')] = MoneyMarket(co, code=c.get('moncode', 'MON'), issuer_short_code=NN(c, names, issuer))
     elif did == 'DEP':
         issuer = 'TRE' if c['gov'] == 'TRECB' else 'GOV'
-        S[(code, 'DEP')] = DepositMarket(co, issuer_short_code=N(names, issuer))
+        S[(code, 'DEP')] = DepositMarket(co, issuer_short_code=NN(c, names, issuer))
     elif did == 'BOND':
         issuer = 'TRE' if c['gov'] == 'TRECB' else 'GOV'
-        S[(code, 'BOND')] = DepositMarket(co, code='BOND', issuer_short_code=N(names, issuer))
+        S[(code, 'BOND')] = DepositMarket(co, code='BOND', issuer_short_code=NN(c, names, issuer))
     else:
         raise ValueError(did)
 
 
-def _zone_gov_code(b, c):
+def _zone_gov_name(b, c, names):
     for o in b.spec['countries']:
         if o['cur'] == c['cur'] and o['gov']:
-            return gov_code(o)
+            return NN(o, names, gov_code(o))
     return 'GOV'
 
 
@@ -230,9 +238,9 @@ def _tail(b, names):
         if ('GOOD' in [d[0] for d in declarations(c)]) and gspec is not None:
             gov = S[(gspec['code'], gov_code(gspec))]
             if gspec['code'] == code:
-                var = 'DEM_' + N(names, 'GOOD')
+                var = 'DEM_' + NN(c, names, 'GOOD')
             else:
-                var = 'DEM_' + N(names, code) + '_' + N(names, 'GOOD')
+                var = 'DEM_' + NN(c, names, code) + '_' + NN(c, names, 'GOOD')
             if var not in gov.EquationBlock:
                 gov.AddVariable(var, 'Government demand', '0.0')
             gov.SetExogenous(var, PATHS[c['G']])
